@@ -1,5 +1,6 @@
 import DiskfsModel.Model.Iso.Susp
 import DiskfsModel.Proofs.IsoCodec
+import DiskfsModel.Proofs.GptCodec
 namespace Diskfs.Iso
 
 /-! ### UCS-2 -/
@@ -21,6 +22,52 @@ theorem ucs2_dec_enc (cps : List Nat) (h : ∀ c ∈ cps, c < 65536 ∧ ¬ (5529
     rw [h1, h2]
     have : c / 256 * 256 + c % 256 = c := by omega
     rw [this, ucs2Rune, if_neg hs]
+
+/-! ### UTF-16 (the repaired Joliet codec) -/
+
+theorem be16Units_be16Bytes (us : List Nat) (h : ∀ u ∈ us, u < 65536) : be16Units (be16Bytes us) = us := by
+  induction us with
+  | nil => rfl
+  | cons u us ih =>
+    have hu := h u (List.mem_cons_self ..)
+    have ih' := ih (fun x hx => h x (List.mem_cons_of_mem _ hx))
+    have e : be16Bytes (u :: us) = UInt8.ofNat (u / 256) :: UInt8.ofNat u :: be16Bytes us := by
+      simp [be16Bytes]
+    rw [e, be16Units, ih']
+    have h1 : (UInt8.ofNat (u / 256)).toNat = u / 256 := by
+      simp only [UInt8.toNat_ofNat']; omega
+    have h2 : (UInt8.ofNat u).toNat = u % 256 := by
+      simp only [UInt8.toNat_ofNat']
+    rw [h1, h2]
+    have : u / 256 * 256 + u % 256 = u := by omega
+    rw [this]
+
+/-- every unit `utf16.Encode` produces has 16 bits, whatever the rune -/
+theorem utf16EncRune_lt (r u : Nat) (hu : u ∈ Gpt.utf16EncRune r) : u < 65536 := by
+  unfold Gpt.utf16EncRune at hu
+  split at hu
+  · rename_i hc
+    simp only [Bool.or_eq_true, Bool.and_eq_true, decide_eq_true_eq] at hc
+    simp only [List.mem_singleton] at hu
+    omega
+  · split at hu
+    · simp only [List.mem_cons, List.not_mem_nil, or_false] at hu
+      omega
+    · simp only [List.mem_singleton] at hu
+      omega
+
+theorem utf16Enc_lt (rs : List Nat) : ∀ u ∈ Gpt.utf16Enc rs, u < 65536 := by
+  intro u hu
+  simp only [Gpt.utf16Enc, List.mem_flatMap] at hu
+  obtain ⟨r, _, hr⟩ := hu
+  exact utf16EncRune_lt r u hr
+
+/-- the repaired codec gives every sequence of Unicode scalar values back, surrogate pairs included -/
+theorem joliet_utf16_dec_enc (cps : List Nat) (h : ∀ c ∈ cps, Gpt.validRune c = true) :
+    jolietDec true (jolietEnc true cps) = cps := by
+  simp only [jolietDec, jolietEnc, if_true]
+  rw [be16Units_be16Bytes _ (utf16Enc_lt cps)]
+  exact Gpt.utf16_roundtrip cps h
 
 /-! ### entries of an area -/
 
